@@ -608,10 +608,10 @@ def gen():
             parts.append((cls + "." + name, T.sha(src, fn)))
             g, rest = guard_and_rest(rel, fn)
             r, c = reads_and_calls(rest)
-            gc = {g[1]} if g else set()
-            if r != reads or (c | gc) != calls:
+            calls = {x for x in calls if not x.startswith("_compute")}   # the guard itself is translated, not assumed
+            if r != reads or c != calls:
                 T.fail(rel, fn, "%s reads %s / calls %s; the model assumes reads %s / calls %s"
-                       % (name, sorted(r), sorted(c | gc), sorted(reads), sorted(calls)))
+                       % (name, sorted(r), sorted(c), sorted(reads), sorted(calls)))
             rests[name] = (rel, fn, rest)
             L.append("Definition guard_%s : option (attr * comp1) := %s." % (name, opt_guard(g)))
     L.append("\n(* SurfaceMesh border accessors: attribute tested before _compute_interior_boundary_edges / _vertices is called *)")
